@@ -78,6 +78,22 @@ func build(s configopaque.String) (inner, keyed) {
 	return in, keyed{K: map[configopaque.String]string{s: "v"}}
 }
 
+// marshalerSub builds its configuration map by hand, as confmap's own test Marshaler does.
+type marshalerSub struct {
+	Token   configopaque.String
+	Headers map[string]configopaque.String
+	List    []configopaque.String
+}
+
+func (m marshalerSub) Marshal(c *confmap.Conf) error {
+	return c.Merge(confmap.NewFromStringMap(map[string]any{"token": m.Token, "headers": m.Headers, "list": m.List}))
+}
+
+type withMarshaler struct {
+	Name string       `mapstructure:"name"`
+	Sub  marshalerSub `mapstructure:"sub"`
+}
+
 type badEntry struct {
 	Limit int `mapstructure:"limit"`
 }
@@ -277,13 +293,27 @@ func encoders(s configopaque.String, in inner, kd keyed, emit func(rendering)) {
 		name string
 		val  any
 	}{{"struct", in}, {"structptr", &in}, {"mapkey", kd},
+		{"mapkey-two-entries", keyed{K: map[configopaque.String]string{s: "v", s + "-2": "w"}}},
+		{"struct-with-marshaler", &withMarshaler{Name: "n", Sub: marshalerSub{Token: s, Headers: in.M, List: in.L}}},
 		{"http.ClientConfig", &confighttp.ClientConfig{Endpoint: "http://x", Headers: in.M}},
 		{"http.ServerConfig", &confighttp.ServerConfig{Endpoint: "x:1", ResponseHeaders: in.M}},
 		{"grpc.ClientConfig", &configgrpc.ClientConfig{Endpoint: "x:1", Headers: in.M}}} {
 		cm := confmap.New()
 		err := cm.Marshal(c.val)
 		sm := cm.ToStringMap()
-		enc("confmap", "Marshal+ToStringMap %v", c.name, fmt.Sprint(sm), err, c.name != "mapkey")
+		enc("confmap", "Marshal+ToStringMap %v", c.name, fmt.Sprint(sm), err, c.name != "mapkey" && c.name != "mapkey-two-entries")
+		if c.name == "struct-with-marshaler" && err == nil {
+			// what the marshalled configuration gives back to code that reads it as plain strings
+			var back struct {
+				Sub struct {
+					Token   string            `mapstructure:"token"`
+					Headers map[string]string `mapstructure:"headers"`
+					List    []string          `mapstructure:"list"`
+				} `mapstructure:"sub"`
+			}
+			uerr := cm.Unmarshal(&back, confmap.WithIgnoreUnused())
+			enc("confmap", "Marshal, then Unmarshal into plain strings", c.name, fmt.Sprintf("%+v", back), uerr, false)
+		}
 		enc("confmap", "Marshal+ToStringMap %#v", c.name, fmt.Sprintf("%#v", sm), err, false)
 		jb, jerr := json.Marshal(sm)
 		enc("confmap", "Marshal+ToStringMap json", c.name, string(jb), jerr, false)
